@@ -119,11 +119,13 @@ def get_quantile_levels(density, x, y, xp, yp, q, normalize=True):
 
     # Normalize interpolation data such that the spacing for
     # x and y is about the same during interpolation.
-    x_norm = x.max()
+    # (The largest absolute value is used: the maximum itself may be
+    # zero or negative.)
+    x_norm = np.abs(x).max()
     x = x / x_norm
     xp = xp / x_norm
 
-    y_norm = y.max()
+    y_norm = np.abs(y).max()
     y = y / y_norm
     yp = yp / y_norm
 
